@@ -34,7 +34,8 @@ def signature(prop, front, rec, lno):
         return '%s/%s/end-of-trace' % (prop, front), None
     bad = ev[lno - 1]
     prev = ev[lno - 2]['post'] if lno >= 2 else None
-    return '%s/%s/%s/%s' % (prop, front, bad['a'], _summ(prev, bad['post'])), bad
+    cls = ('[%s]' % bad['j']) if bad.get('a') == 'RecvJunk' and bad.get('j', 'junk') != 'junk' else ''
+    return '%s/%s/%s%s/%s' % (prop, front, bad['a'], cls, _summ(prev, bad['post'])), bad
 
 
 def _chunks(recs, n):
